@@ -194,28 +194,35 @@ func phaseHist(c *lib.Ctx) {
 	// clock the sleep returns at once (the listeners use fresh ephemeral ports).
 	vtime.SetVirtual(time.Date(2025, 3, 1, 12, 0, 0, 0, time.UTC))
 	defer vtime.SetVirtual(time.Time{})
-	depth := 5
-	if !c.Quick() {
-		depth = 6
+	type pass struct {
+		ops   []hop
+		depth int
 	}
-	b := &lib.BFS[hop]{C: c, Ops: histAlphabet(c.Quick()), MaxDepth: depth, Workers: 12, Confirm: true,
-		Exec: func(h []hop) lib.Step {
-			if len(h) == 0 {
-				return lib.Step{Key: "-"}
-			}
-			st, eerr := runHist(h)
-			c.Count("evals", 1)
-			c.Count("history_executions", 1)
-			if eerr != "" {
-				c.EngineError(eerr)
-				return lib.Step{}
-			}
-			if st.VKey != "" {
-				return lib.Step{VKey: st.VKey, VDesc: st.VDesc}
-			}
-			return st
-		}}
-	b.Run()
+	passes := []pass{{histAlphabet(true), 5}}
+	if !c.Quick() {
+		// the larger alphabet one level less deep, the smaller one one level deeper
+		passes = []pass{{histAlphabet(false), 5}, {histAlphabet(true), 6}}
+	}
+	for _, p := range passes {
+		b := &lib.BFS[hop]{C: c, Ops: p.ops, MaxDepth: p.depth, Workers: 12, Confirm: true,
+			Exec: func(h []hop) lib.Step {
+				if len(h) == 0 {
+					return lib.Step{Key: "-"}
+				}
+				st, eerr := runHist(h)
+				c.Count("evals", 1)
+				c.Count("history_executions", 1)
+				if eerr != "" {
+					c.EngineError(eerr)
+					return lib.Step{}
+				}
+				if st.VKey != "" {
+					return lib.Step{VKey: st.VKey, VDesc: st.VDesc}
+				}
+				return st
+			}}
+		b.Run()
+	}
 }
 
 func replayHist(raw json.RawMessage) (string, bool) {
